@@ -247,7 +247,23 @@ fn main() {
                             write_hist(h, x, e);
                         }
                         let st: Vec<String> = out.stuck_threads.iter().map(|t| t.to_string()).collect();
-                        writeln!(h, "{{\"e\":\"Z\",\"x\":{},\"stuck\":{},\"budget\":{},\"stuck_threads\":[{}],\"t\":0}}", x, out.stuck, out.over_budget, st.join(",")).unwrap();
+                        let mut so: Vec<String> = Vec::new();
+                        if out.stuck {
+                            for (k, &t) in out.stuck_threads.iter().enumerate() {
+                                // the call this thread is inside: its last Begin without an End
+                                let mut op = String::new();
+                                for e in out.log.iter().filter(|e| e.t == t) {
+                                    if e.kind == sched::H_BEGIN {
+                                        let ex = e.extra.clone().unwrap_or_default();
+                                        op = ex.split("\"op\":\"").nth(1).and_then(|r| r.split('"').next()).unwrap_or("").to_string();
+                                    } else if e.kind == sched::H_END {
+                                        op.clear();
+                                    }
+                                }
+                                so.push(format!("{{\"p\":{},\"op\":\"{}\",\"pend\":\"{}\"}}", t, op, kind_name(out.stuck_pending[k])));
+                            }
+                        }
+                        writeln!(h, "{{\"e\":\"Z\",\"x\":{},\"stuck\":{},\"budget\":{},\"stuck_threads\":[{}],\"stuck_ops\":[{}],\"t\":0}}", x, out.stuck, out.over_budget, st.join(","), so.join(",")).unwrap();
                     }
                     if let Some(r) = raw.as_mut() {
                         let mut em = Emit { ids: HashMap::new() };
